@@ -22,7 +22,7 @@ LABELS = [b"a", b"ab", b"a-b", b"-a", b"a_", b"xn--abcd", b"abcde", b"a.b", b"th
 DOM_PRE = [b"", b" ", b"_", b"\\", b".", b"-", b"@", b"//"]
 DOM_SUF = [b"", b" ", b"0", b"1", b"(", b"=", b".", b"/x", b"-"]
 LOCALS = [b"bob", b"b.o", b"ab", b"a%b+c", b"x_y", b"B-0"]
-MAIL_DOMS = [b"example.org", b"a.co", b"x.y.international", b"a-b.xn--p1ai", b"a.notatld", b"1.2.3.4", b"a.com0"]
+MAIL_DOMS = [b".com", b"..org", b"example.org", b"a.co", b"x.y.international", b"a-b.xn--p1ai", b"a.notatld", b"1.2.3.4", b"a.com0"]
 
 
 def describe(tier):
@@ -163,7 +163,7 @@ def run_unit(unit, rec):
         schemes = c12.SCHEMES + [b"gopher", b"HTTPX", b"ftps", b"file"]
         half = len(schemes) // 2
         for scheme in (schemes[:half] if unit[1] == 0 else schemes[half:]):
-            for ui, host, port, path, q, f, e in itertools.product(c12.USERINFO, c12.HOSTS + [b"", b"a", b"%zz.com"], c12.PORTS, (b"", b"/", b"/%41/%2f/..%zz"), c12.QUERIES, c12.FRAGS, c12.EMBED):
+            for ui, host, port, path, q, f, e in itertools.product(c12.USERINFO, c12.HOSTS + [b"", b"a", b"%zz.com", b".com", b"%2Einfo", b"..com", b".a.com", b"a..com", b"-.org", b"....", b"com."], c12.PORTS, (b"", b"/", b"/%41/%2f/..%zz"), c12.QUERIES, c12.FRAGS, c12.EMBED):
                 url = scheme + b"://" + ui + host + port + path + q + f
                 data = c12.embed(url, e)
                 call(rec, network.find_urls, data, {"kind": "call", "fn": "find_urls", "data": data})
